@@ -104,6 +104,9 @@ fn base_args(cfg: &RunCfg) -> Vec<String> {
     if let Some(s) = cfg.only_stage {
         a.extend(["--only-stage".into(), s.to_string()]);
     }
+    if !cfg.skip_ops.is_empty() {
+        a.extend(["--skip-ops".into(), cfg.skip_ops.iter().map(u64::to_string).collect::<Vec<_>>().join(",")]);
+    }
     a
 }
 
@@ -163,20 +166,61 @@ fn run_once(cfg: &RunCfg) -> Result<u8, FatalRun> {
 
 pub fn supervise_run(cfg: &RunCfg) -> u8 {
     let mut cfg = cfg.clone();
-    for _ in 0..6 {
+    for _ in 0..24 {
         match run_once(&cfg) {
             Ok(code) => return code,
             Err((stage, index, point, class, detail)) => {
                 if fatal_relevant(&cfg.property, &stage) {
                     return report(&cfg, &stage, index, point, class, detail);
                 }
+                if stage.kind == StageKind::History {
+                    // an operation that takes the process down says nothing about canonical values, and
+                    // it would do so in thousands of histories: exclude the operation KIND and judge the rest
+                    if let Some(op) = fatal_op(&cfg, &stage, index) {
+                        println!(
+                            "NOTE: history operation kind {op} ({}) takes the process down ({class}) in run {index}; that is outside {}'s statement. The kind is excluded from the histories and the batch re-run",
+                            crate::history::op_name(op),
+                            cfg.property
+                        );
+                        cfg.skip_ops.push(op);
+                        crate::history::set_skip_ops(&cfg.skip_ops);
+                        continue;
+                    }
+                }
+                if cfg.skip.len() >= 5 {
+                    break;
+                }
                 println!("simctl: run {index} of stage '{}' is fatal ({class}) but that is outside {}'s statement (it is C17's); skipping it and re-running", stage.name, cfg.property);
                 cfg.skip.push((stage.arm_id, index));
             }
         }
     }
-    println!("HARNESS-ERROR: more than 5 fatal runs outside this property's scope");
+    println!("HARNESS-ERROR: too many fatal runs outside this property's scope");
     2
+}
+
+/// Which operation of a fatal history takes the process down: replay growing prefixes of the plan in
+/// fresh processes; the last operation of the shortest fatal prefix is the one.
+fn fatal_op(cfg: &RunCfg, stage: &Stage, index: u64) -> Option<u64> {
+    let mut plan = plan_at(cfg, stage, index, None);
+    plan.property = cfg.property.clone();
+    let steps = plan.aux.len() / 4;
+    let path = format!("{}/.fatal-op-{}-{}.json", cfg.replays, cfg.property, std::process::id());
+    let mut found = None;
+    for j in 1..=steps {
+        let mut p = plan.clone();
+        p.aux.truncate(4 * j);
+        if std::fs::write(&path, serde_json::to_string(&p).unwrap()).is_err() {
+            break;
+        }
+        let r = spawn_wait(&["replay".into(), path.clone(), "--inproc".into(), "--quiet".into()], Duration::from_secs(HANG_SECS + 10), true);
+        if matches!(r, Died::Signal(_) | Died::Timeout) {
+            found = Some(p.aux[4 * (j - 1)] % crate::history::NOPS);
+            break;
+        }
+    }
+    let _ = std::fs::remove_file(&path);
+    found
 }
 
 fn probe(cfg: &RunCfg, stage: &Stage, from: u64, to: u64, points: Option<(u64, usize, usize)>) -> Died {
